@@ -4,6 +4,7 @@
   yields no path and no Sid twice.
 -/
 import Spil.Lemmas.FS
+import Spil.Lemmas.Find
 import Spil.Props.C05
 
 namespace GlobL
@@ -11,9 +12,17 @@ namespace GlobL
 open FSL World
 
 /-- the path `p` of the tree is a hit of the search Sid `s`: it resolves to the typed Sid `x` of
-    the searched type -/
+    the searched type, whose string the search string matches (repaired `star_search_simple`) -/
 def Hit (d : DCtx) (config : Option Str) (s : Sid) (p : Str) (x : Sid) : Prop :=
-  d.ctx.sidOfPath p config = .ok x ∧ x.typed = true ∧ x.type = s.type
+  d.ctx.sidOfPath p config = .ok x ∧ x.typed = true ∧ x.type = s.type ∧
+    Find.globMatch d.ctx.env s.string x.string = .ok true
+
+/-- `re.match(glob2re(pat), item)` does not raise (and is the Boolean `globB`) for a pattern
+    without `[` -/
+theorem globMatch_ok (e : Env) (pat item : Str) (hb : '[' ∉ pat) :
+    Find.globMatch e pat item = .ok (Spec.globB e pat item) := by
+  obtain ⟨items, hi⟩ := Find.glob2re_isSome pat hb
+  simp [Find.globMatch, Spec.globB, hi]
 
 /-- the glob pattern `star_search_simple` uses for the search Sid `s`: `str(sid.path(config))` -/
 def patOf (d : DCtx) (config : Option Str) (s : Sid) : Str :=
@@ -34,7 +43,10 @@ def hits (d : DCtx) (config : Option Str) (s : Sid) : List Str → List Str → 
     | .ok x =>
       if x.type != s.type then hits d config s l f
       else if !x.typed then hits d config s l f
-      else (p, x) :: hits d config s l (f ++ [p])
+      else
+        match Find.globMatch d.ctx.env s.string x.string with
+        | .ok true => (p, x) :: hits d config s l (f ++ [p])
+        | _ => hits d config s l f
     | .error _ => hits d config s l f
 
 theorem foldl_starStep_error (d : DCtx) (config : Option Str) (s : Sid) (l : List Str) (e : Err) :
@@ -53,12 +65,17 @@ theorem starStep_ok (d : DCtx) (config : Option Str) (s : Sid) (out : List Sid) 
       | .ok x =>
         if x.type != s.type then .ok (out, found)
         else if !x.typed then .ok (out, found)
-        else .ok (out ++ [x], found ++ [path]) := rfl
+        else
+          match Find.globMatch d.ctx.env s.string x.string with
+          | .error e => .error e
+          | .ok false => .ok (out, found)
+          | .ok true => .ok (out ++ [x], found ++ [path]) := rfl
 
 /-- the fold of `star_search_simple` over one glob result, when resolving a path raises nothing
     but SpilException -/
 theorem fold_eq_hits (d : DCtx) (config : Option Str) (s : Sid) (l : List Str)
     (htot : ∀ p ∈ l, ∀ e, d.ctx.sidOfPath p config = .error e → e = .spil)
+    (hgm : ∀ y, ∃ b, Find.globMatch d.ctx.env s.string y = .ok b)
     (out0 : List Sid) (f0 : List Str) :
     l.foldl (starStep d config s) (.ok (out0, f0)) =
       .ok (out0 ++ (hits d config s l f0).map (·.2), f0 ++ (hits d config s l f0).map (·.1)) := by
@@ -85,8 +102,14 @@ theorem fold_eq_hits (d : DCtx) (config : Option Str) (s : Sid) (l : List Str)
         · exact ih htot' out0 f0
         · split
           · exact ih htot' out0 f0
-          · rw [ih htot' (out0 ++ [x]) (f0 ++ [p])]
-            simp
+          · obtain ⟨b, hb⟩ := hgm x.string
+            rw [hb]
+            cases b with
+            | false => exact ih htot' out0 f0
+            | true =>
+              simp only
+              rw [ih htot' (out0 ++ [x]) (f0 ++ [p])]
+              simp
 
 theorem mem_hits (d : DCtx) (config : Option Str) (s : Sid) (l : List Str) :
     ∀ (f : List Str) (q : Str) (x : Sid),
@@ -124,7 +147,7 @@ theorem mem_hits (d : DCtx) (config : Option Str) (s : Sid) (l : List Str) :
         split
         · next hty =>
           apply skip
-          rintro z ⟨hz, _, hzt⟩
+          rintro z ⟨hz, _, hzt, _⟩
           rw [hy] at hz
           injection hz with hz
           subst hz
@@ -140,27 +163,36 @@ theorem mem_hits (d : DCtx) (config : Option Str) (s : Sid) (l : List Str) :
           · next hty htyped =>
             have hyt : y.type = s.type := by simpa using hty
             have hytyped : y.typed = true := by simpa using htyped
-            rw [List.mem_cons, ih]
-            constructor
-            · rintro (heq | ⟨h1, h2, h3⟩)
-              · injection heq with h1 h2
-                subst h1; subst h2
-                exact ⟨by simp, hpf, hy, hytyped, hyt⟩
-              · refine ⟨List.mem_cons_of_mem _ h1, fun hm => h2 (List.mem_append_left _ hm), h3⟩
-            · rintro ⟨h1, h2, h3⟩
-              by_cases hqp : q = p
-              · subst hqp
-                left
-                have := h3.1
-                rw [hy] at this
-                injection this with this
-                rw [this]
-              · right
-                rcases List.mem_cons.1 h1 with h1 | h1
-                · exact absurd h1 hqp
-                · refine ⟨h1, ?_, h3⟩
-                  simp only [List.mem_append, List.mem_singleton, not_or]
-                  exact ⟨h2, hqp⟩
+            split
+            · next hgm =>
+              rw [List.mem_cons, ih]
+              constructor
+              · rintro (heq | ⟨h1, h2, h3⟩)
+                · injection heq with h1 h2
+                  subst h1; subst h2
+                  exact ⟨by simp, hpf, hy, hytyped, hyt, hgm⟩
+                · refine ⟨List.mem_cons_of_mem _ h1, fun hm => h2 (List.mem_append_left _ hm), h3⟩
+              · rintro ⟨h1, h2, h3⟩
+                by_cases hqp : q = p
+                · subst hqp
+                  left
+                  have := h3.1
+                  rw [hy] at this
+                  injection this with this
+                  rw [this]
+                · right
+                  rcases List.mem_cons.1 h1 with h1 | h1
+                  · exact absurd h1 hqp
+                  · refine ⟨h1, ?_, h3⟩
+                    simp only [List.mem_append, List.mem_singleton, not_or]
+                    exact ⟨h2, hqp⟩
+            · next hgm =>
+              apply skip
+              rintro z ⟨hz, _, _, hzg⟩
+              rw [hy] at hz
+              injection hz with hz
+              subst hz
+              exact hgm hzg
       · next e he =>
         apply skip
         rintro z ⟨hz, _, _⟩
@@ -181,18 +213,20 @@ theorem hits_paths_nodup (d : DCtx) (config : Option Str) (s : Sid) (l : List St
         · exact ih f
         · split
           · exact ih f
-          · simp only [List.map_cons, List.nodup_cons]
-            refine ⟨?_, ih _⟩
-            intro hm
-            obtain ⟨⟨q, x⟩, hqx, hq⟩ := List.mem_map.1 hm
-            simp only at hq
-            subst hq
-            have := ((mem_hits d config s l _ _ _).1 hqx).2.1
-            exact this (by simp)
+          · split
+            · simp only [List.map_cons, List.nodup_cons]
+              refine ⟨?_, ih _⟩
+              intro hm
+              obtain ⟨⟨q, x⟩, hqx, hq⟩ := List.mem_map.1 hm
+              simp only at hq
+              subst hq
+              have := ((mem_hits d config s l _ _ _).1 hqx).2.1
+              exact this (by simp)
+            · exact ih f
       · exact ih f
 
-/-- a list of pairs whose first components are distinct and determine... the second components
-    are distinct as soon as a second component determines its first -/
+/-- a list of pairs whose first components are distinct: the second components are distinct as
+    soon as a second component determines its first -/
 theorem snd_nodup {α β} (hs : List (α × β)) (h1 : (hs.map (·.1)).Nodup)
     (hinj : ∀ p q x, (p, x) ∈ hs → (q, x) ∈ hs → p = q) : (hs.map (·.2)).Nodup := by
   induction hs with
@@ -209,18 +243,30 @@ theorem snd_nodup {α β} (hs : List (α × β)) (h1 : (hs.map (·.1)).Nodup)
     subst this
     exact h1.1 (List.mem_map.2 ⟨(p, y), hqy, rfl⟩)
 
-/-- the invariant of the `searched` / `found` bookkeeping: every hit of a pair already globbed has
-    been yielded -/
-def SearchedInv (d : DCtx) (w : World) (config : Option Str) (searched : List (Str × Str))
-    (found : List Str) : Prop :=
-  ∀ tp ∈ searched, ∀ p ∈ w.glob tp.2, ∀ x, d.ctx.sidOfPath p config = .ok x → x.typed = true →
-    x.type = tp.1 → p ∈ found
+/-- searches that are globbed with the same (type, pattern) pair have the same string: the code
+    globs such a pair only ONCE, for the first of them, and the repaired filter
+    `re.match(glob2re(str(search)), …)` depends on the string of the search -/
+def SameStr (d : DCtx) (config : Option Str) (searches : List Sid) : Prop :=
+  ∀ a ∈ searches, ∀ b ∈ searches, a.type = b.type → patOf d config a = patOf d config b →
+    a.string = b.string
+
+/-- the invariant of the `searched` / `found` bookkeeping: every pair already globbed was globbed
+    for a search string `str` shared by all remaining searches with that pair, and every hit of it
+    has been yielded -/
+def SearchedInv (d : DCtx) (w : World) (config : Option Str) (searches : List Sid)
+    (searched : List (Str × Str)) (found : List Str) : Prop :=
+  ∀ tp ∈ searched, ∃ str : Str,
+    (∀ s' ∈ searches, s'.type = tp.1 → patOf d config s' = tp.2 → s'.string = str) ∧
+    ∀ p ∈ w.glob tp.2, ∀ x, d.ctx.sidOfPath p config = .ok x → x.typed = true →
+      x.type = tp.1 → Find.globMatch d.ctx.env str x.string = .ok true → p ∈ found
 
 /-- EXACT characterisation of `pathsStarGo` at the level of (path, Sid) pairs -/
 theorem pathsStarGo_pairs (d : DCtx) (w : World) (config : Option Str)
     (htot : ∀ p ∈ w.nodes.map (·.1), ∀ e, d.ctx.sidOfPath p config = .error e → e = .spil)
-    (searches : List Sid) (hsp : ∀ s ∈ searches, ∃ po, d.ctx.sidPath config s = .ok po) :
-    ∀ (searched : List (Str × Str)) (found : List Str), SearchedInv d w config searched found →
+    (searches : List Sid) (hsp : ∀ s ∈ searches, ∃ po, d.ctx.sidPath config s = .ok po)
+    (hgm : ∀ s ∈ searches, '[' ∉ s.string) (hstr : SameStr d config searches) :
+    ∀ (searched : List (Str × Str)) (found : List Str),
+      SearchedInv d w config searches searched found →
     ∃ hs : List (Str × Sid),
       d.pathsStarGo w config searches searched found = .ok (hs.map (·.2)) ∧
       (hs.map (·.1)).Nodup ∧
@@ -232,6 +278,9 @@ theorem pathsStarGo_pairs (d : DCtx) (w : World) (config : Option Str)
     intro searched found hinv
     have hsp' : ∀ s ∈ rest, ∃ po, d.ctx.sidPath config s = .ok po :=
       fun s hs => hsp s (List.mem_cons_of_mem _ hs)
+    have hgm' : ∀ s ∈ rest, '[' ∉ s.string := fun s hs => hgm s (List.mem_cons_of_mem _ hs)
+    have hstr' : SameStr d config rest := fun a ha b hb =>
+      hstr a (List.mem_cons_of_mem _ ha) b (List.mem_cons_of_mem _ hb)
     obtain ⟨po, hpo⟩ := hsp s (by simp)
     have hpat : patOf d config s = po.getD ['N','o','n','e'] := by simp [patOf, hpo]
     rw [pathsStarGo_cons, hpo]
@@ -240,7 +289,11 @@ theorem pathsStarGo_pairs (d : DCtx) (w : World) (config : Option Str)
     · next hc =>
       -- the pair was globbed before: nothing new
       have hmem : (s.type, po.getD ['N','o','n','e']) ∈ searched := by simpa using hc
-      obtain ⟨hs, h1, h2, h3⟩ := ih hsp' searched found hinv
+      have hinv0 : SearchedInv d w config rest searched found := by
+        intro tp htp
+        obtain ⟨str, h1, h2⟩ := hinv tp htp
+        exact ⟨str, fun s' hs' => h1 s' (List.mem_cons_of_mem _ hs'), h2⟩
+      obtain ⟨hs, h1, h2, h3⟩ := ih hsp' hgm' hstr' searched found hinv0
       refine ⟨hs, h1, h2, fun p x => ?_⟩
       rw [h3]
       constructor
@@ -248,28 +301,41 @@ theorem pathsStarGo_pairs (d : DCtx) (w : World) (config : Option Str)
       · rintro ⟨s', hs', hg, hnf, hh⟩
         rcases List.mem_cons.1 hs' with rfl | hs'
         · rw [hpat] at hg
-          exact absurd (hinv _ hmem p hg x hh.1 hh.2.1 hh.2.2) hnf
+          obtain ⟨str, g1, g2⟩ := hinv _ hmem
+          have hs'str : s'.string = str := g1 s' (by simp) rfl hpat
+          have hgm0 := hh.2.2.2
+          rw [hs'str] at hgm0
+          exact absurd (g2 p hg x hh.1 hh.2.1 hh.2.2.1 hgm0) hnf
         · exact ⟨s', hs', hg, hnf, hh⟩
     · have htot' : ∀ p ∈ w.glob (po.getD ['N','o','n','e']), ∀ e,
           d.ctx.sidOfPath p config = .error e → e = .spil := by
         intro p hp
         unfold World.glob at hp
         exact htot p (List.mem_filter.1 hp).1
-      rw [fold_eq_hits d config s _ htot' [] found]
+      have hgm0 : ∀ y, ∃ b, Find.globMatch d.ctx.env s.string y = .ok b :=
+        fun y => ⟨_, globMatch_ok d.ctx.env s.string y (hgm s (by simp))⟩
+      rw [fold_eq_hits d config s _ htot' hgm0 [] found]
       simp only [List.nil_append]
       -- the invariant for the recursive call
-      have hinv' : SearchedInv d w config (searched ++ [(s.type, po.getD ['N','o','n','e'])])
+      have hinv' : SearchedInv d w config rest (searched ++ [(s.type, po.getD ['N','o','n','e'])])
           (found ++ (hits d config s (w.glob (po.getD ['N','o','n','e'])) found).map (·.1)) := by
-        intro tp htp p hp x hx hxt hxty
+        intro tp htp
         rcases List.mem_append.1 htp with htp | htp
-        · exact List.mem_append_left _ (hinv tp htp p hp x hx hxt hxty)
+        · obtain ⟨str, h1, h2⟩ := hinv tp htp
+          exact ⟨str, fun s' hs' => h1 s' (List.mem_cons_of_mem _ hs'),
+            fun p hp x hx hxt hxty hxg => List.mem_append_left _ (h2 p hp x hx hxt hxty hxg)⟩
         · simp only [List.mem_singleton] at htp
           subst htp
-          by_cases hpf : p ∈ found
-          · exact List.mem_append_left _ hpf
-          · apply List.mem_append_right
-            exact List.mem_map.2 ⟨(p, x), (mem_hits d config s _ _ _ _).2 ⟨hp, hpf, hx, hxt, hxty⟩, rfl⟩
-      obtain ⟨hs, h1, h2, h3⟩ := ih hsp' _ _ hinv'
+          refine ⟨s.string, ?_, ?_⟩
+          · intro s' hs' hty hp'
+            exact hstr s' (List.mem_cons_of_mem _ hs') s (by simp) hty (by rw [hp', hpat])
+          · intro p hp x hx hxt hxty hxg
+            by_cases hpf : p ∈ found
+            · exact List.mem_append_left _ hpf
+            · apply List.mem_append_right
+              exact List.mem_map.2 ⟨(p, x),
+                (mem_hits d config s _ _ _ _).2 ⟨hp, hpf, hx, hxt, hxty, hxg⟩, rfl⟩
+      obtain ⟨hs, h1, h2, h3⟩ := ih hsp' hgm' hstr' _ _ hinv'
       rw [h1]
       refine ⟨hits d config s (w.glob (po.getD ['N','o','n','e'])) found ++ hs, by simp, ?_, ?_⟩
       · rw [List.map_append, List.nodup_append]
